@@ -7,6 +7,7 @@
     Model/Conflicts.v; [files::merge_hunks] (with the store's merge options) is an oracle.
     Plus the C06 correspondence case. Definitions only. *)
 From Verif Require Import Base.Prelude Gen.Tables Model.Merge Model.Conflicts.
+From Verif Require Model.C05.
 
 Notation fid := (option (list N)) (only parsing).
 Definition fid_eqb (a b : fid) : bool := option_eqb bytes_eqb a b.
@@ -120,11 +121,8 @@ Record case := mk_case {
   c_result : option (list (option (list N * bool)));  (* impl result; None = error/panic *)
 }.
 
-Fixpoint lookup_diff (tbl : list (list N * list N * list dhunk)) (a b : list N) : list dhunk :=
-  match tbl with
-  | [] => [mk_dhunk false a b]
-  | (x, y, d) :: t => if bytes_eqb x a && bytes_eqb y b then d else lookup_diff t a b
-  end.
+(** Recorded line diffs as the diff oracle (the same lookup as in the C05 case). *)
+Definition lookup_diff := C05.lookup_diff.
 
 Definition tval_eqb (a b : option (list N * bool)) : bool :=
   option_eqb (fun p q => bytes_eqb (fst p) (fst q) && Bool.eqb (snd p) (snd q)) a b.
@@ -205,6 +203,15 @@ Definition okb (c : case) : bool :=
   | _ => true
   end.
 
+(** The hypotheses of C06_unchanged / C06_resolved_region_edit on a hunk list of this case
+    (boolean checkers of C05, sound by Proofs/C05.v), and lines-of-the-inputs for the
+    unedited hunks (so that the chosen length dominates by C05_marker_len_dominates). *)
+Definition hyps6_b (c : case) (hs : list (list (list N))) : bool :=
+  C05.wf_hunksb (nsides (case_simplified c)) hs
+  && C05.hunks_dominatedb (N.to_nat (c_len c)) hs
+  && forallb C05.label_okb (c_labels c)
+  && C05.diffs_okb (c_diffs c).
+
 Definition check_case (c : case) : N :=
   let d1 := bytes_eqb (model_mat c) (c_mat c) in
   let d2 := N.eqb (N.of_nat (choose_marker_len (case_contents c))) (c_len c) in
@@ -216,7 +223,19 @@ Definition check_case (c : case) : N :=
             | 0%N, _, _ => bytes_eqb (c_content c) (c_mat c)
             | _, _, _ => true
             end in
-  let corr := d1 && d2 && d3 && d4 in
+  (* the theorems' hypotheses hold on the real merge result (the store merges at line
+     level), and on the edited hunk list of a resolved-region edit *)
+  let d5 := match c_mh c with
+            | inr hs =>
+                hyps6_b c hs
+                && forallb (forallb (C05.lines_ofb (case_contents c))) hs
+                && match c_kind c, c_edit c with
+                   | 1%N, Some (k, r) => hyps6_b c (edit_hunks hs (N.to_nat k) r)
+                   | _, _ => true
+                   end
+            | inl _ => true
+            end in
+  let corr := d1 && d2 && d3 && d4 && d5 in
   let detail : N := if negb d1 then 1%N else if negb d2 then 2%N else if negb d3 then 3%N
-                    else if negb d4 then 4%N else 5%N in
+                    else if negb d4 then 4%N else if negb d5 then 5%N else 6%N in
   verdict corr (okb c) false detail.
